@@ -6,7 +6,7 @@
    loop of the next one: they are elements of its [ds].  That the real clients carry no other state
    from one query to the next (the reusable receive buffer is re-sized and cut to the received
    length) is what the netlab history stream checks against this function. *)
-From RsdnsModel Require Import Base GenTypes RecordSet Client Timed TimedApi.
+From RsdnsModel Require Import Base GenTypes RecordSet Client Timed.
 From RsdnsModel.Spec Require Import Retry.
 From RsdnsModel.Proofs Require Import ClientProofs TimedProofs TimedGeneral TimedTyped.
 Open Scope N_scope.
@@ -99,22 +99,23 @@ Theorem C16_history_with_slack : forall std smol lifetime qt jit proc eps,
           qs (udp_history std smol lifetime qt jit proc qs queue).
 Proof. exact history_with_slack. Qed.
 
-(* THE TYPED QUERY AS A WHOLE (TimedApi.v: client_rrset_timed = ClientImpl::query_rrset::<D>), in every
-   world: with a configured buffer size and a data class it returns exactly what record-set
-   extraction yields on the bytes the raw query returns for the same exchange — the raw query for
-   D's type into a buffer of exactly the configured size — with the same traffic at the same
-   instants, and the raw query's error as it is; without a buffer size (BadParam) or for a class that
-   is not a data class (UnsupportedClass) it is refused before anything is sent *)
-Theorem C16_typed_is_extraction_of_raw : forall std smol q cfg jit proc bs arrs srv,
+(* THE TYPED QUERY AS A WHOLE (Timed.v: rrset_of_raw = ClientImpl::query_rrset::<D> over ANY raw query —
+   TimedApi.v instantiates it with the raw query of each of the four clients over time): with a
+   configured buffer size and a data class it returns exactly what record-set extraction yields on
+   the bytes the raw query returns for the same exchange — the raw query for D's type into a buffer
+   of exactly the configured size — with the same traffic at the same instants, and the raw query's
+   error as it is; without a buffer size (BadParam) or for a class that is not a data class
+   (UnsupportedClass) it is refused before the raw query is called: nothing is sent *)
+Theorem C16_typed_is_extraction_of_raw : forall (W : Type) std q bs (w0 : W) raw,
   0 < bs -> class_is_data (tq_class q) = true ->
-  client_rrset_timed std smol q cfg jit proc bs arrs srv =
-  match client_call_timed std smol q cfg jit proc bs arrs srv with
+  rrset_of_raw std q bs w0 raw =
+  match raw bs with
   | (wire, ev, Ok d, t) => (wire, ev, from_msg d (tq_type q), t)
   | (wire, ev, r, t) => (wire, ev, retype r Panic, t)
   end.
-Proof. exact rrset_is_extraction_of_raw. Qed.
-Theorem C16_typed_refused_sends_nothing : forall std smol q cfg jit proc bs arrs srv,
+Proof. intros W. exact (@rrset_is_extraction_of_raw W). Qed.
+Theorem C16_typed_refused_sends_nothing : forall (W : Type) std q bs (w0 : W) raw,
   bs = 0 \/ class_is_data (tq_class q) = false ->
-  exists e, client_rrset_timed std smol q cfg jit proc bs arrs srv = (([], None), [], Err e, tq_start q) /\
+  exists e, rrset_of_raw std q bs w0 raw = (w0, [], Err e, tq_start q) /\
             (e = BadParam \/ e = UnsupportedClass (tq_class q)).
-Proof. exact rrset_refused_sends_nothing. Qed.
+Proof. intros W. exact (@rrset_refused_sends_nothing W). Qed.
